@@ -2,6 +2,7 @@
    close) is a quiescent protocol state: every transaction issued before it is complete. *)
 From Coq Require Import List NArith Bool.
 From Feox Require Import Model.Device Proofs.CrashProofs.
+From Feox Require Model.Gate Proofs.GateProofs.
 Import ListNotations.
 Local Open Scope N_scope.
 
@@ -43,14 +44,74 @@ Theorem transaction_all_or_nothing :
   forall s d,
   PInv s -> crash_image (dv s) d ->
   exists seen, recover d = Some seen /\
-    ((forall k, contents seen k = before s k) \/ (forall k, contents seen k = after s k)).
+    ((forall k, contents seen k = before s k) \/ (forall k, contents seen k = after s k))
+(* ---- the retirement gate (Model/Gate.v = Record::successor_is_durable_or_deleted): the extent
+   of a superseded generation is retired only when this answers true ---- *)
+
+(* a positive answer means that the generation was deleted outright, or that its successor chain
+   reaches a generation that is on the device or ends in a deleted one -- so the newest durable
+   generation of a key is never the one that is retired; the memo bits stay sound *).
 Proof. exact crash_atomic. Qed.
 Check transaction_all_or_nothing :
   forall s d,
   PInv s -> crash_image (dv s) d ->
   exists seen, recover d = Some seen /\
-    ((forall k, contents seen k = before s k) \/ (forall k, contents seen k = after s k)).
+    ((forall k, contents seen k = before s k) \/ (forall k, contents seen k = after s k))
+(* ---- the retirement gate (Model/Gate.v = Record::successor_is_durable_or_deleted): the extent
+   of a superseded generation is retired only when this answers true ---- *)
+
+(* a positive answer means that the generation was deleted outright, or that its successor chain
+   reaches a generation that is on the device or ends in a deleted one -- so the newest durable
+   generation of a key is never the one that is retired; the memo bits stay sound *).
 Print Assumptions transaction_all_or_nothing.
+
+Theorem gate_true_means_superseded_durably_or_deleted :
+  forall l x l',
+  GateProofs.memo_ok l -> Gate.gate l x = (true, l') ->
+  GateProofs.memo_ok l' /\
+  forall me, nth_error l x = Some me -> Gate.gn_succ me = None \/ exists s, Gate.gn_succ me = Some s /\ GateProofs.good l s.
+Proof. exact GateProofs.gate_true_means_superseded_durably_or_deleted. Qed.
+Check gate_true_means_superseded_durably_or_deleted :
+  forall l x l',
+  GateProofs.memo_ok l -> Gate.gate l x = (true, l') ->
+  GateProofs.memo_ok l' /\
+  forall me, nth_error l x = Some me -> Gate.gn_succ me = None \/ exists s, Gate.gn_succ me = Some s /\ GateProofs.good l s.
+Print Assumptions gate_true_means_superseded_durably_or_deleted.
+
+Theorem good_chain_reaches_durable_or_deleted :
+  forall l c, GateProofs.good l c ->
+  exists d n, GateProofs.reach l c d /\ nth_error l d = Some n /\ (0 < Gate.gn_sector n \/ (Gate.gn_succ n = None /\ Gate.gn_ref n = 0))
+
+(* it refuses only when the chain ends in a live generation that is not on the device yet *).
+Proof. exact GateProofs.good_unfolds. Qed.
+Check good_chain_reaches_durable_or_deleted :
+  forall l c, GateProofs.good l c ->
+  exists d n, GateProofs.reach l c d /\ nth_error l d = Some n /\ (0 < Gate.gn_sector n \/ (Gate.gn_succ n = None /\ Gate.gn_ref n = 0))
+
+(* it refuses only when the chain ends in a live generation that is not on the device yet *).
+Print Assumptions good_chain_reaches_durable_or_deleted.
+
+Theorem gate_false_means_successor_not_durable :
+  forall l x l',
+  GateProofs.forward l -> Gate.gate l x = (false, l') ->
+  l' = l /\ exists me s, nth_error l x = Some me /\ Gate.gn_succ me = Some s /\ ~ GateProofs.good l s
+
+(* publishing, deleting and superseding generations never invalidate a memo bit *).
+Proof. exact GateProofs.gate_false_means_successor_not_durable. Qed.
+Check gate_false_means_successor_not_durable :
+  forall l x l',
+  GateProofs.forward l -> Gate.gate l x = (false, l') ->
+  l' = l /\ exists me s, nth_error l x = Some me /\ Gate.gn_succ me = Some s /\ ~ GateProofs.good l s
+
+(* publishing, deleting and superseding generations never invalidate a memo bit *).
+Print Assumptions gate_false_means_successor_not_durable.
+
+Theorem gate_memo_stays_sound :
+  forall l e, GateProofs.memo_ok l -> GateProofs.memo_ok (GateProofs.gstep l e).
+Proof. exact GateProofs.memo_stays_sound. Qed.
+Check gate_memo_stays_sound :
+  forall l e, GateProofs.memo_ok l -> GateProofs.memo_ok (GateProofs.gstep l e).
+Print Assumptions gate_memo_stays_sound.
 Example quiescent_example :
   quiescent (mkps (mkdev (mkdisk (SValid 4 JClear) (SValid 3 JClear) [CZero; CMarker]) []) Idle 4 false [CZero; CMarker]).
 Proof. repeat split; simpl; auto. left; reflexivity. Qed.
